@@ -1281,7 +1281,7 @@ Vdetach(int32 vkey /* IN: vgroup key */)
 
         /* write out vgroup */
         if (Hputelement(vg->f, DFTAG_VG, vg->oref, Vgbuf, vgpacksize) == FAIL)
-            HERROR(DFE_WRITEERROR);
+            HGOTO_ERROR(DFE_WRITEERROR, FAIL); /* the vgroup is not in the file: do not report success */
 
         vg->marked = 0;
         vg->new_vg = 0;
